@@ -29,16 +29,18 @@ def scratch_base() -> str:
 
 
 class Zygote:
-    def __init__(self, hashseed: int, repo_src: Optional[str] = None) -> None:
+    def __init__(self, hashseed: int, repo_src: Optional[str] = None, warm: str = "") -> None:
         self.hashseed = hashseed
+        self.warm = warm
         self.repo_src = repo_src or REPO_SRC
         base = scratch_base()
-        self.sock = os.path.join(base, "z%d-%d.sock" % (os.getpid(), hashseed))
+        self.sock = os.path.join(base, "z%d-%d%s.sock" % (os.getpid(), hashseed, "w" if warm else ""))
         env = dict(os.environ)
         env["PYTHONHASHSEED"] = str(hashseed)
         env["PYTHONPATH"] = self.repo_src + ":" + VERIF
         env["PYTHONDONTWRITEBYTECODE"] = "1"
         env["SQLFLUFF_VERIF_SIM"] = "1"
+        env["VSIM_ZYGOTE_WARM"] = warm
         env.pop("SQLFLUFF_CONFIG", None)
         self.proc = subprocess.Popen(
             [PYTHON, "-B", "-m", "vsim.zygote", self.sock],
@@ -80,24 +82,25 @@ class Zygote:
 class Cluster:
     """Per batch-worker: a few zygotes + world root allocation."""
 
-    def __init__(self, repo_src: Optional[str] = None, max_zygotes: int = 4) -> None:
+    def __init__(self, repo_src: Optional[str] = None, max_zygotes: int = 6) -> None:
         self.repo_src = repo_src or REPO_SRC
-        self.zygotes: dict[int, Zygote] = {}
-        self.order: list[int] = []
+        self.zygotes: dict[Any, Zygote] = {}
+        self.order: list[Any] = []
         self.max = max_zygotes
         self.roots: list[str] = []
         atexit.register(self.shutdown)
 
-    def zygote(self, hashseed: int) -> Zygote:
-        z = self.zygotes.get(hashseed)
+    def zygote(self, hashseed: int, warm: str = "") -> Zygote:
+        key = (hashseed, warm)
+        z = self.zygotes.get(key)
         if z is not None and z.proc.poll() is None:
             return z
         if len(self.zygotes) >= self.max:
             old = self.order.pop(0)
             self.zygotes.pop(old).stop()
-        z = Zygote(hashseed, self.repo_src)
-        self.zygotes[hashseed] = z
-        self.order.append(hashseed)
+        z = Zygote(hashseed, self.repo_src, warm)
+        self.zygotes[key] = z
+        self.order.append(key)
         return z
 
     def new_root(self, tag: str) -> str:
